@@ -455,6 +455,24 @@ def job_op(job):
 
             handle_violations(agg, known, "B", key, case["base"], case, rr, minimiserB, extra={"case": case})
     agg.bump("wall", "B", time.monotonic() - t2)
+    # ---------------- in-run determinism recheck: same key twice -> same event log ----------
+    try:
+        for wl, n in (("A", 3 if job["budget_A"] else 0), ("B", 2 if job["budget_B"] else 0)):
+            for j in range(n):
+                key = f"{seed}/{wl}/{op}/{job.get('start', 0) + j if wl == 'A' else j}"
+                digs = []
+                for _ in range(2):
+                    if wl == "A":
+                        rng, scn, cfg = gen_A(key, op)
+                        digs.append(exec_A(scn, cfg, rng=rng).digest)
+                    else:
+                        digs.append(workload_b.exec_B(workload_b.gen_B(key, op)).digest)
+                agg.bump("probes", "determinism_rechecks")
+                if digs[0] != digs[1]:
+                    agg.bump("probes", "determinism_mismatches")
+                    agg.d["harness"].append(f"{key}: NONDETERMINISTIC simulator: two executions of one key gave digests {digs}")
+    except Exception as e:  # noqa: BLE001
+        agg.d["harness"].append(f"determinism recheck {op}: {type(e).__name__}: {e}")
     out = agg.export()
     out["name"] = job["name"]
     return out
